@@ -6,6 +6,8 @@
 * `fit_record`          short real fit recording, per iteration, nll_attach_ind and every sufficient statistic
 * `state_quantities`    nll_attach_ind, statistics and one M-step on a clone of a fitted state loaded with a dataset
 * `noise_from_scratch`  the documented noise estimator recomputed from y / model of a state
+* `noise_on_code` / `noise_tie`  T2 for the two noise update rules: the real statistics + update rule on small exact inputs,
+                        the variance handed to compute_std_from_variance compared inside Coq with Masked/Pipeline.v
 """
 from __future__ import annotations
 
@@ -429,3 +431,153 @@ def put_data_tie(run, n):
     for b in bad or []:
         run.fail("put-data-variables:weights-differ-from-model", "weights given to t / y by put_data_variables differ from t <- mask.any(feature), y <- mask",
                  meta[b])
+
+
+# ----------------------------------------------------------------------------- T2 for the noise update rules
+
+F3 = "scalar-noise:model-sq-over-unobserved"
+# witness of the former scalar rule (known_findings.jsonl, F3): 2 individuals x 1 visit x 2 features, y[0,0,1] missing
+WITNESS = dict(y=[[[1.0, None]], [[2.0, 3.0]]], model=[[[1.0, 5.0]], [[2.0, 3.0]]])
+NOISE_HDR = ("From Coq Require Import List NArith ZArith QArith Bool.\nFrom Leaspy Require Import Base.Atoms Masked.Weighted Masked.Pipeline.\n"
+             "Import ListNotations.\nLocal Close Scope Q_scope.\n")
+NOISE_TYPE = "bool * list nat * list atom * list N * list atom * list nat * list atom"
+
+
+def noise_on_code(values, mask, model, diagonal):
+    """The REAL wiring of FullGaussianObservationModel.with_noise_std_as_model_parameter(dim): y = y_getter(dataset), the
+    state statistics (y_L2, n_obs | y_L2_per_ft, n_obs_per_ft), the collected sufficient statistics (y_x_model, model_x_model)
+    and the update rule.  `compute_std_from_variance` is wrapped (this process only) to record the variance it receives.
+    Returns ("V", float64 tensor) or ("X", exception class name)."""
+    import types
+    import torch
+    import leaspy.models.obs_models._gaussian as gm
+    om = gm.FullGaussianObservationModel.with_noise_std_as_model_parameter(2 if diagonal else 1)
+    ds = types.SimpleNamespace(values=values, mask=mask)
+    seen = []
+    orig = gm.compute_std_from_variance
+
+    def recorder(variance, *a, **k):
+        seen.append(variance.detach().clone())
+        return orig(variance, *a, **k)
+    gm.compute_std_from_variance = recorder
+    try:
+        st = {"y": om.getter(ds), "model": model}
+        ns = om.extra_vars["noise_std"]
+        for k, v in om.extra_vars.items():
+            if k != "noise_std":
+                st[k] = v.compute(st)
+        for k, v in ns.suff_stats.dedicated_variables.items():
+            st[k] = v.compute(st)
+        try:
+            ns.update_rule(state=st, **ns.suff_stats(st))
+        except Exception as e:  # noqa: BLE001  (variance below tolerance -> LeaspyConvergenceError, after the variance was recorded)
+            if not seen:
+                return ("X", type(e).__name__)
+    except Exception as e:  # noqa: BLE001
+        return ("X", type(e).__name__)
+    finally:
+        gm.compute_std_from_variance = orig
+    if len(seen) != 1:
+        return ("X", f"compute_std_from_variance called {len(seen)} times")
+    return ("V", seen[0].double())
+
+
+def _former_scalar_rule(values, mask, model):
+    """what the scalar rule computed before the repair: model^2 summed over EVERY entry (float64)"""
+    w = mask.bool()
+    y0 = values.masked_fill(~w, 0.0)
+    return ((y0 ** 2).sum() - 2 * (y0 * model.masked_fill(~w, 0.0)).sum() + (model ** 2).sum()) / w.sum().double()
+
+
+def noise_case_tensors(inp):
+    """tensors of a recorded input: scenario "witness" (None = missing) or "noise-tie" (values / mask / model given)"""
+    import torch
+    from harness.props.c06_api import unjson
+    if "mask" in inp:
+        return (torch.tensor(unjson(inp["values"]), dtype=torch.float64), torch.tensor(inp["mask"], dtype=torch.float64),
+                torch.tensor(unjson(inp["model"]), dtype=torch.float64))
+    y = torch.tensor([[[float("nan") if x is None else float(x) for x in v] for v in i] for i in inp["y"]], dtype=torch.float64)
+    return y, (~y.isnan()).double(), torch.tensor(inp["model"], dtype=torch.float64)
+
+
+def noise_coq_case(values, mask, model, diagonal, var):
+    from harness.props.c06_api import atom, lst, nats, ns, rshape
+    return (f"({'true' if diagonal else 'false'}, {rshape(values.shape)}, {lst(atom(x) for x in values.reshape(-1).tolist())}, "
+            f"{ns(mask.reshape(-1).tolist())}, {lst(atom(x) for x in model.reshape(-1).tolist())}, {rshape(var.shape)}, "
+            f"{lst(atom(x) for x in var.reshape(-1).tolist())})")
+
+
+def noise_tie(run, n, only=None):
+    """T2 for scalar_noise_std_update / diagonal_noise_std_update: the variance computed by the real rule (float64 inputs on which every
+    operation but the final division is exact) against Masked/Pipeline.v noise_var_scalar / noise_var_diagonal, inside Coq.
+    `only` = list of recorded inputs to re-run instead of the generated cases (replay)."""
+    import torch
+    from harness.props.c06_api import jsonable
+    obs_vals = [k / 2 for k in range(-6, 7)]
+    garbage = [0.0, 7.5, -2.0, 1e30, float("nan"), float("inf"), float("-inf")]
+    todo = []  # (input dict, values, mask, model, diagonal)
+    if only is not None:
+        for inp in only:
+            v, m, mod = noise_case_tensors(inp)
+            rules = [inp["rule"] == "diagonal"] if "rule" in inp else [False, True]
+            todo += [(inp, v, m, mod, d) for d in rules]
+    else:
+        v, m, mod = noise_case_tensors(WITNESS)
+        todo += [(dict(scenario="witness", **WITNESS), v, m, mod, False), (dict(scenario="witness", **WITNESS), v, m, mod, True)]
+        for c in range(n):
+            r = run.rng("noise-tie", c)
+            ni, nvis, nf = r.randint(1, 3), r.randint(1, 3), r.randint(1, 3)
+            p = r.choice([0.15, 0.4, 0.7])
+            mask = torch.tensor([[[0.0 if r.random() < p else 1.0 for _ in range(nf)] for _ in range(nvis)] for _ in range(ni)], dtype=torch.float64)
+            if not bool(mask.any()):  # a dataset has at least one observation (a feature may still be entirely missing: 0/0 per feature)
+                mask[r.randrange(ni), r.randrange(nvis), r.randrange(nf)] = 1.0
+            gy = r.random() < 0.6   # garbage (incl. NaN / inf) under the mask of y
+            gm_ = r.random() < 0.5  # non-finite model values where y is missing
+            values = torch.tensor([[[r.choice(obs_vals) if mask[i, j, k] else (r.choice(garbage) if gy else 0.0) for k in range(nf)]
+                                    for j in range(nvis)] for i in range(ni)], dtype=torch.float64)
+            model = torch.tensor([[[r.choice(obs_vals) if (mask[i, j, k] or not gm_) else r.choice(garbage) for k in range(nf)]
+                                   for j in range(nvis)] for i in range(ni)], dtype=torch.float64)
+            diagonal = r.random() < 0.5
+            inp = dict(scenario="noise-tie", rule="diagonal" if diagonal else "scalar", values=jsonable(values.tolist()),
+                       mask=[[[int(x) for x in v] for v in i] for i in mask.tolist()], model=jsonable(model.tolist()))
+            todo.append((inp, values, mask, model, diagonal))
+    cases, meta = [], []
+    for inp, values, mask, model, diagonal in todo:
+        rule = "diagonal" if diagonal else "scalar"
+        w = mask.bool()
+        partial = bool((~w & (model != 0)).any())  # the model is not 0 somewhere y is missing: what tells a masked sum from an unmasked one
+        run.case(("noise-tie", rule, tuple(values.shape), repr(values.reshape(-1).tolist()), tuple(mask.reshape(-1).tolist()),
+                  repr(model.reshape(-1).tolist())), nontrivial=partial)
+        run.count("oracle", "noise-rule-tie")
+        run.count("noise-tie-rule", rule)
+        run.count("noise-tie-missing-entries", int((~w).sum()))
+        res = noise_on_code(values, mask, model, diagonal)
+        if res[0] == "X":
+            run.count("noise-tie-outcome", res[1])
+            run.fail(f"noise-rule:raises:{res[1]}", f"{rule} noise update raised {res[1]} before producing a variance", dict(inp, rule=rule))
+            continue
+        var = res[1]
+        run.count("noise-tie-outcome", "nan" if bool(var.isnan().any()) else ("zero" if bool((var == 0).all()) else "finite"))
+        cases.append(noise_coq_case(values, mask, model, diagonal, var))
+        meta.append((inp, values, mask, model, diagonal, var))
+    if only is None and meta:
+        run.sample(dict(kind="noise-rule-tie", case=meta[0][0], rule="scalar", variance_on_code=jsonable(meta[0][5].reshape(-1).tolist())))
+        run.sample(dict(kind="noise-rule-tie", case=meta[-1][0], variance_on_code=jsonable(meta[-1][5].reshape(-1).tolist())))
+    bad = run.vm_bad_indices("noise", NOISE_HDR, NOISE_TYPE, cases, "check_noise_case")
+    for b in bad or []:
+        inp, values, mask, model, diagonal, var = meta[b]
+        rule = "diagonal" if diagonal else "scalar"
+        former = None if diagonal else _former_scalar_rule(values, mask, model)
+        is_f3 = former is not None and bool(torch.isclose(var.reshape(()), former, rtol=1e-12, atol=0.0, equal_nan=True)) \
+            and bool((~mask.bool() & (model != 0)).any())
+        if is_f3:
+            run.fail(F3, "scalar_noise_std_update sums model^2 over entries where y is missing (the variance is not the one of the masked rule "
+                         "-2 * y_x_model + model_x_model summed with the weights of y; on the witness 25/3 instead of 0)",
+                     dict(inp, rule=rule), expected="noise_var_scalar of Masked/Pipeline.v (residual mean square over observed entries)",
+                     observed=jsonable(var.reshape(-1).tolist()))
+        else:
+            run.fail(f"noise-rule-differs-from-model:{rule}", f"the {rule} noise update of the code and the Coq model (Masked/Pipeline.v) give different "
+                     "variances on this input (the theorem C06_noise_observed_only is about the model)", dict(inp, rule=rule),
+                     expected=f"noise_var_{rule} of Masked/Pipeline.v", observed=jsonable(var.reshape(-1).tolist()))
+    run.extra["noise_tie_cases"] = len(cases)
+    return bad
